@@ -520,8 +520,9 @@ pub fn exec(a: &Act, cx: &Cx) {
         Act::Collect => op_collect(cx),
         Act::CollectInConfig => {
             if cx.is_top() {
+                // collect until quiet, every call issued from inside a config closure; then the C02 comparison
                 IN_CONFIG.with(|c| c.set(true));
-                op_collect(cx);
+                op_collect_quiet(cx);
                 IN_CONFIG.with(|c| c.set(false));
             } else {
                 op_collect(cx)
@@ -1016,8 +1017,10 @@ thread_local! {
 
 fn collect_call() {
     #[cfg(feature = "auto-collect")]
-    if IN_CONFIG.with(|c| c.replace(false)) {
-        // (a failing config access would mean a configuration borrow is already active: never the case at top level)
+    if IN_CONFIG.with(|c| c.get()) {
+        // At top level the access succeeds. A request made by a callback while that collection runs finds the
+        // configuration borrowed (by our own closure): it is nested in a running collection, where collect_cycles() is a
+        // no-op anyway, so not calling it is equivalent.
         let _ = rust_cc::config::config(|_c| collect_cycles());
         return;
     }
